@@ -56,7 +56,7 @@ def one(args):
         return (m['id'], prop, 'FALSE-ALARM' if code == 1 else 'ANALYSIS-ERROR',
                 '; '.join('%s %s %s' % (o.rule, o.construct, o.token) for o in R.violations) + ' | ' + ' | '.join(R.errors))
     if code == 1:
-        want = m.get('rule')
+        want = m.get('rule') if prop == m['props'][0] else None
         if want and want not in rules:
             return (m['id'], prop, 'wrong-rule', 'fired %s, expected %s' % (rules, want))
         return (m['id'], prop, 'ok', ','.join(rules))
